@@ -32,7 +32,7 @@ Honest(L) == [i \in 1..L |-> [by |-> i, key |-> i, ctx |-> "a", covers |-> L - i
 Ops == {"none", "transit", "mutbody", "mutsig", "wrongpeer", "replayold",
         "outerflip", "outersigflip", "stripouter",
         "innerflip", "innersigflip", "splicetime", "spliceorigin", "reattribute", "forgeknown", "duprec", "reorder",
-        "skipto", "claimdirect", "renew", "wraptwice", "handover"}
+        "skipto", "claimdirect", "renew", "wraptwice", "handover", "splicechain", "splicebelow"}
 NeedsDepth(op) == op \in {"innerflip", "innersigflip", "splicetime", "spliceorigin", "reattribute", "forgeknown", "duprec", "reorder", "skipto"}
 
 (* The chain the victim receives and who delivers it, per operator.  `d` is the depth (2..L) of the     *)
@@ -68,6 +68,11 @@ Received(L, op, d) ==
     [] op = "skipto" -> <<Fresh1(L - d + 1)>> \o SubSeq(Honest(L), d, L)               \* own fresh record + genuine suffix
     [] op = "claimdirect" -> <<Fresh1(0)>>                                            \* own fresh record, nothing below
     [] op = "handover" -> SubSeq(Honest(L), d, L)
+    [] op = "splicechain" -> \* the WHOLE chain of another announcement (every record genuinely signed by its router - for that other
+                             \* announcement - and covering what hangs below it), attached to this one and delivered by its outermost signer
+         [i \in 1..L |-> [Honest(L)[i] EXCEPT !.ctx = "c"]]
+    [] op = "splicebelow" -> \* the adversary's own fresh record for THIS announcement over the genuine chain 2..L of another announcement
+         [i \in 1..L |-> IF i = 1 THEN Fresh1(L - 1) ELSE [Honest(L)[i] EXCEPT !.ctx = "c"]]
     [] op = "renew" -> \* honest: the route is already installed from an earlier announcement whose outer record carried other
                        \* labels / another delay (same total); this is the NEWER announcement with the forwarder's fresh record
          [i \in 1..L |-> IF i = 1 THEN Fresh1(L - 1) ELSE Honest(L)[i]]
@@ -106,7 +111,8 @@ Case(L, op, d, seen, p) ==
   /\ (NeedsDepth(op) => d \in 2..L) /\ (~NeedsDepth(op) /\ op # "handover" => d = 0)
   /\ (op = "handover" => L >= 1 /\ d \in 1..(L + 1) /\ p \in (1..L) \cup {Origin, OtherPeer})
   /\ (op # "handover" => p = 0)
-  /\ (op \in {"outerflip", "outersigflip", "stripouter", "claimdirect", "renew", "wraptwice"} => L >= 1)
+  /\ (op \in {"outerflip", "outersigflip", "stripouter", "claimdirect", "renew", "wraptwice", "splicechain"} => L >= 1)
+  /\ (op = "splicebelow" => L >= 2)
   /\ (op = "wraptwice" => ~seen)
   /\ (op = "renew" => ~seen)
   /\ (op = "reorder" => d < L)
